@@ -271,6 +271,17 @@ def eval_foreign(c, rec):
         body = rsig.sign(sec, 0x00, 8, ('doc', raw), hashed, unh)
         sigs.append(wire.build_packet(2, body, 'old' if hdr == 'old' else 'new'))
         ops.append(bytes([3, 0, 8, sec.pub.alg]) + opid)
+    if n and c['mtime'] % 5 == 2:
+        # a co-signer whose key is of a public-key algorithm PGPy has a name but no signature structure for (20, the old ElGamal
+        # sign-and-encrypt; 21): the packet is somebody else's business and must not make the message, or the other signatures, unusable
+        alg = [20, 21][c['mtime'] % 2]
+        hashed = keypool.sp(2, wire.u32(1600000007))
+        body = bytes([4, 0x00, alg, 8]) + len(hashed).to_bytes(2, 'big') + hashed + (10).to_bytes(2, 'big') + keypool.sp(16, bytes(range(0xB0, 0xB8))) + b'\x12\x34' \
+            + wire.mpi_encode((1 << 1020) + 77) + wire.mpi_encode((1 << 1019) + 99)
+        sigs.append(wire.build_packet(2, body, 'old' if hdr == 'old' else 'new'))
+        ops.append(bytes([3, 0, 8, alg]) + bytes(range(0xB0, 0xB8)))
+        n += 1
+        rec.note('foreign/co-signer-of-unimplemented-algorithm')
     # one-pass i pairs with signature n-1-i
     seq = b''.join(wire.build_packet(4, ops[n - 1 - i] + bytes([1 if i == n - 1 else 0])) for i in range(n)) + lp + b''.join(sigs)
     if hdr == 'indeterminate' and not c['comp'] and not n:
